@@ -336,6 +336,8 @@ func c03CorePrograms() []c03prog {
 		// counters still hold pending increments (the first open is walking them) while another thread's Adds fill the first page and re-map
 		{Name: "pending-open-vs-grow", NCtr: 2, PreTouch: []int{0, 1}, Threads: [][]c03op{{{Kind: "open"}}, {{Kind: "grow"}, {Kind: "grow"}, {Kind: "grow"}, {Kind: "grow"}, add(1)}}},
 		{Name: "read-vs-add", PreOpen: true, NCtr: 1, PreTouch: []int{0}, Threads: [][]c03op{{{Kind: "read"}}, {add(0), add(0)}}},
+		// a rotation that fails while a first increment of a counter is looking its record up
+		{Name: "fresh-add-vs-failed-rotate", PreOpen: true, NCtr: 2, PreTouch: []int{1}, Threads: [][]c03op{{add(0), add(1)}, {{Kind: "rotate-fail"}}, {add(1)}}},
 	}
 }
 
@@ -451,6 +453,14 @@ func runC03(res *verifrt.Result, base string, p c03prog, st c03strategy, rnd *ve
 				case "rotate":
 					e.now = e.now.Add(8 * 24 * time.Hour)
 					e.f.rotate1()
+				case "rotate-fail":
+					// the week is over, but the next file cannot be opened (full disk,
+					// no memory for the mapping): the rotation gives up; increments that
+					// overlap it return normally and stay in memory
+					e.now = e.now.Add(8 * 24 * time.Hour)
+					verifrt.SetPlan(&verifrt.Plan{NoLog: true, Faults: []*verifrt.Fault{{Op: "OpenFile", Nth: -1, Errno: syscall.ENOSPC}, {Op: "Mmap", Nth: -1, Errno: syscall.ENOMEM}}})
+					e.f.rotate1()
+					verifrt.SetPlan(nil)
 				case "grow":
 					j := e.addCounter(vfBigName(e.growN))
 					e.growN++
